@@ -118,6 +118,20 @@ class KeyBuilder:
             if not stmts:
                 stmts.append(A.PassStmt(None))
             o = A.StmtBlock(stmts)
+        elif kname == 'Stmt':
+            # an abstract statement with the model's gen/term (or can-complete) behaviour
+            gen = [u for u in list(self.names) if self.table('gen_stmt', name, u)]
+            if 'term_stmt' in self.ghost or 'gen_stmt' in self.ghost:
+                ret = bool(self.table('term_stmt', name))
+            else:
+                ret = not self.table('cc_stmt', name, True, default=True)
+            if ret:
+                o = A.ReturnStmt(zero(), None)
+            elif gen:
+                mk = lambda: A.StmtBlock([A.Assign(self.key('NamedId', u), None, zero(), None) for u in gen])
+                o = A.IfStmt(zero(), mk(), mk(), None)
+            else:
+                o = A.PassStmt(None)
         elif kname == 'TupleBinding':
             o = A.TupleBinding([self.key('NamedId', u) for u in list(self.names) if self.table('binds_tuple', name, u)], None)
         elif kname == 'Assign':
